@@ -237,7 +237,8 @@ func lemmaReencodeTWCC(raw []byte) (p, q TransportLayerCC, err, err2, err3 error
 func seqEqU16(a, b []uint16) bool { return seqEq(a, b) }
 
 // specTWCCCanonical: the header is consistent with the content (C09's scope for this type): the declared
-// length is exactly the content padded to a 32-bit boundary and the padding flag is set iff padding exists.
+// length is exactly the content padded to a 32-bit boundary and the padding flag is set only when padding exists
+// (zero fill to the boundary without the flag is in scope).
 func specTWCCCanonical(raw []byte) bool {
 	r := specTWCCDecode(raw)
 	if !r.ok {
@@ -247,7 +248,7 @@ func specTWCCCanonical(raw []byte) bool {
 	for _, t := range r.dtypes {
 		n += int(t)
 	}
-	return r.total == n+specPad4(n) && (raw[0]&0x20 != 0) == (specPad4(n) > 0)
+	return r.total == n+specPad4(n) && (raw[0]&0x20 == 0 || specPad4(n) > 0)
 }
 
 // ---- RFC 3550 section 6.5: SDES (independent encoder) ----
